@@ -36,7 +36,7 @@ CHECKS = {
     "C05": dict(
         category="exploration",
         technique="deterministic simulation of sessions with first-class continuations: seeded histories in which later top-level forms re-enter stored continuations, under collection schedules and slicing, checked against a reference CEK machine with first-class continuations",
-        text="Sessions composed of 13 continuation templates (escape, re-entry from later forms, operand position with effects on both sides, tail capture, nested, inside map/for-each, mutation since capture, re-entry from loops ...) with the continuation stored in a global, vector, pair, closure or list and re-entered 0-3 times; the value, failure and output of every form must equal the reference machine's. Half of the runs add forced collections (continuations are kept alive by the marker only), a third are sliced. Sampling.",
+        text="Sessions composed of 17 continuation templates (escape, re-entry from later forms, operand position with effects on both sides, tail capture, nested, inside map/for-each, mutation since capture, re-entry from loops, captures above 256 stack slots, re-entry from the capturing activation, two captures in one activation ...) with the continuation stored in a global, vector, pair, closure or list and re-entered 0-3 times; the value, failure and output of every form must equal the reference machine's. Half of the runs add forced collections (continuations are kept alive by the marker only), a third are sliced. Sampling.",
         note="Trusted: the reference machine (persistent frame list as continuation).",
         design="§5 C05",
     ),
@@ -50,7 +50,7 @@ CHECKS = {
     "C03": dict(
         category="exploration",
         technique="deterministic simulation: seeded search over collection schedules at VM instruction boundaries, differential twin with collections suppressed, independent heap audit after every collection",
-        text="Seeded search over (program, collection schedule): generated sessions and allocation-heavy templates run under every-k, every-instruction, Bernoulli, burst, production-policy and between-form schedules; every form's value, failure, output, stack trace and instruction count is compared with a twin VM in which no collection happens, and an independent reachability audit (safety I1, bookkeeping I3, intern table I4) runs after every collection. Evidence from sampling, not proof.",
+        text="Seeded search over (program, collection schedule): generated sessions, allocation-heavy templates and deep live structures (car/vector/closure nesting up to 3000) run under every-k, every-instruction, Bernoulli, burst, production-policy and between-form schedules; every form's value, failure, output, stack trace and instruction count is compared with a twin VM in which no collection happens, and an independent reachability audit (safety I1, bookkeeping I3, intern table I4) runs after every collection. Evidence from sampling, not proof.",
         note="Trusted: hook H3 enters the VM's own run_gc (only its utilisation test is skipped); the auditor's own root enumeration and traversal; Suppress mode as 'no collection'.",
         design="§5 C03, §4.4",
     ),
@@ -64,7 +64,7 @@ CHECKS = {
     "C12": dict(
         category="exploration",
         technique="deterministic simulation: heap audit 'no unreachable cell stays allocated' after every scheduled collection, plus resource monitors over garbage loops (n vs 10n) under the production collection policy with randomised knobs",
-        text="After every collection of the C03 schedule families the auditor checks that each allocated cell is reachable from the roots; garbage loops of 11 allocation kinds x 3 live-set sizes, split into forms and slices with a randomised initial heap chunk, must hold no more heap capacity, stack capacity, cells in use, interned symbols or global slots after 10n iterations than after n. Sampling of programs and schedules.",
+        text="After every collection of the C03 schedule families the auditor checks that each allocated cell is reachable from the roots; garbage loops of 13 allocation kinds x 3 live-set sizes x 5 loop drivers (named let, continuation back edge, mutual tail calls, apply, ...), split into forms and slices with a randomised initial heap chunk, must hold no more heap capacity, stack capacity, cells in use, interned symbols or global slots after 10n iterations than after n. Sampling of programs and schedules.",
         note="Trusted: auditor traversal (conservative about jump offsets for I2); 'stops growing' is decided as not-larger at 10n than at n with n past warm-up (quick: 3e3/1e4, thorough: 1e4/1e5).",
         design="§5 C12",
     ),
